@@ -2,7 +2,7 @@
 // A7 of DESIGN.md §7.  Every item here is an *assumption* (external_body / assume_specification /
 // axiom / uninterp) and is counted by the mechanical trusted-base scan.  The shapes follow vstd's
 // own specs for take/zip/map (prophetic `remaining()` model).
-use core::iter::{Chain, Once, Cloned, Enumerate};
+use core::iter::{Chain, Once, Enumerate};
 use vstd::std_specs::iter::{IteratorSpec};
 
 // ---- chain ----
@@ -46,32 +46,107 @@ pub assume_specification<T>[ core::iter::once ](v: T) -> (r: Once<T>)
     ensures r.obeys_prophetic_iter_laws(), r.remaining() == seq![v], r.will_return_none(), r.decrease() is Some;
 
 // ---- cloned ----
-#[verifier::external_type_specification]
-#[verifier::external_body]
-#[verifier::reject_recursive_types(I)]
-pub struct ExCloned<I>(Cloned<I>);
-
-pub uninterp spec fn cloned_post<T, I>(a: I, r: Cloned<I>) -> bool;
-pub trait VxIterCloned<'a, T: 'a + Clone>: Iterator<Item = &'a T> + Sized {
-    fn vx_cloned(self) -> (r: Cloned<Self>)
-        ensures cloned_post::<T, Self>(self, r);
-}
-impl<'a, T: 'a + Clone, I: Iterator<Item = &'a T> + Sized> VxIterCloned<'a, T> for I {
+// `.cloned()` is rewritten (R6) to `.vx_cloned()`, which returns this wrapper instead of core's
+// `Cloned<I>`: Verus has no normalisation axiom for `<Cloned<I> as Iterator>::Item` of the external
+// impl, so values of that type cannot be related to `Seq<T>`.  `next` is core's definition.
+pub struct VxCloned<I, T> { pub inner: I, pub _t: core::marker::PhantomData<T> }
+impl<'a, T: 'a + Clone, I: Iterator<Item = &'a T>> Iterator for VxCloned<I, T> {
+    type Item = T;
     #[verifier::external_body]
-    fn vx_cloned(self) -> (r: Cloned<Self>) { self.cloned() }
+    fn next(&mut self) -> Option<T> { self.inner.next().cloned() }
 }
-// `cloned()` over a Copy element type: the clone of an element is the element.
-pub broadcast axiom fn cloned_postcondition<'a, T: 'a + Copy, I: Iterator<Item = &'a T>>(a: I, r: Cloned<I>)
-    requires
-        a.obeys_prophetic_iter_laws(),
-        #[trigger] cloned_post::<T, I>(a, r),
-    ensures
-        r.obeys_prophetic_iter_laws(),
-        r.remaining().len() == a.remaining().len(),
-        forall|k: int| 0 <= k < a.remaining().len() ==> #[trigger] r.remaining()[k] == *a.remaining()[k],
-        r.will_return_none() == a.will_return_none(),
-        r.decrease() is Some == a.decrease() is Some,
-;
+impl<'a, T: 'a + Clone, I: Iterator<Item = &'a T>> vstd::std_specs::iter::IteratorSpecImpl for VxCloned<I, T> {
+    open spec fn obeys_prophetic_iter_laws(&self) -> bool { self.inner.obeys_prophetic_iter_laws() }
+    uninterp spec fn remaining(&self) -> Seq<T>;
+    uninterp spec fn will_return_none(&self) -> bool;
+    uninterp spec fn decrease(&self) -> Option<nat>;
+    uninterp spec fn peek(&self, index: int) -> Option<T>;
+}
+pub trait VxIterCloned<'a, T: 'a + Clone>: Iterator<Item = &'a T> + Sized {
+    fn vx_cloned(self) -> (r: VxCloned<Self, T>);
+}
+// element type Copy: the clone of an element is the element
+impl<'a, T: 'a + Copy, I: Iterator<Item = &'a T> + Sized> VxIterCloned<'a, T> for I {
+    #[verifier::external_body]
+    fn vx_cloned(self) -> (r: VxCloned<Self, T>)
+        ensures
+            r.inner == self,
+            self.obeys_prophetic_iter_laws() ==> (
+                r.remaining().len() == self.remaining().len()
+                && (forall|k: int| 0 <= k < self.remaining().len() ==> #[trigger] r.remaining()[k] == *self.remaining()[k])
+                && r.will_return_none() == self.will_return_none()
+                && (r.decrease() is Some) == (self.decrease() is Some)),
+    { VxCloned { inner: self, _t: core::marker::PhantomData } }
+}
+
+// ---- map ----
+// `.map(` is rewritten (R6) to `.vx_map(`.  vstd's own spec for Iterator::map is delivered through a
+// broadcast lemma whose trait bound on the closure type is never established for closures created inside
+// a *generic* function (all repo code is generic over the curve), so nothing is known about the mapped
+// values.  This wrapper states the same facts (vstd's `map_postcondition`) directly as the method's
+// postcondition.  `next` is core's definition.
+pub struct VxMap<I, B> { pub inner: I, pub _b: core::marker::PhantomData<B> }
+// NOTE the closure type is deliberately not a parameter of the stand-in type: Verus does not establish
+// `FnMut` bounds for closure types inside trait-impl methods, which blocks every trait-dispatched spec
+// on a type that mentions the closure.  The closure enters only through `call_ensures` below.
+impl<B, I: Iterator> Iterator for VxMap<I, B> {
+    type Item = B;
+    #[verifier::external_body]
+    fn next(&mut self) -> Option<B> { unimplemented!() }
+}
+impl<B, I: Iterator> vstd::std_specs::iter::IteratorSpecImpl for VxMap<I, B> {
+    open spec fn obeys_prophetic_iter_laws(&self) -> bool { self.inner.obeys_prophetic_iter_laws() }
+    uninterp spec fn remaining(&self) -> Seq<B>;
+    uninterp spec fn will_return_none(&self) -> bool;
+    uninterp spec fn decrease(&self) -> Option<nat>;
+    uninterp spec fn peek(&self, index: int) -> Option<B>;
+}
+pub trait VxIterMap: Iterator + Sized {
+    fn vx_map<B, F: FnMut(Self::Item) -> B>(self, f: F) -> (r: VxMap<Self, B>)
+        requires
+            self.obeys_prophetic_iter_laws(),
+            forall|k: int| 0 <= k < self.remaining().len() ==> call_requires(f, (#[trigger] self.remaining()[k],)),
+        ensures
+            r.inner == self,
+            r.remaining().len() <= self.remaining().len(),
+            forall|k: int| 0 <= k < r.remaining().len() ==> call_ensures(f, (self.remaining()[k],), #[trigger] r.remaining()[k]),
+            r.will_return_none() ==> (self.will_return_none() && r.remaining().len() == self.remaining().len()),
+            (r.decrease() is Some) == (self.decrease() is Some);
+}
+impl<I: Iterator + Sized> VxIterMap for I {
+    #[verifier::external_body]
+    fn vx_map<B, F: FnMut(Self::Item) -> B>(self, f: F) -> (r: VxMap<Self, B>)
+    { unimplemented!() }
+}
+// the same method name on Result / Option (the rewrite is purely syntactic)
+pub trait VxResultMap<T, E>: Sized {
+    spec fn as_result(self) -> Result<T, E>;
+    fn vx_map<U, F: FnOnce(T) -> U>(self, f: F) -> (r: Result<U, E>)
+        requires self.as_result() is Ok ==> call_requires(f, (self.as_result()->Ok_0,)),
+        ensures
+            self.as_result() is Err ==> r is Err && r->Err_0 == self.as_result()->Err_0,
+            self.as_result() is Ok ==> r is Ok && call_ensures(f, (self.as_result()->Ok_0,), r->Ok_0);
+}
+impl<T, E> VxResultMap<T, E> for Result<T, E> {
+    open spec fn as_result(self) -> Result<T, E> { self }
+    #[verifier::external_body]
+    fn vx_map<U, F: FnOnce(T) -> U>(self, f: F) -> (r: Result<U, E>)
+    { self.map(f) }
+}
+pub trait VxOptionMap<T>: Sized {
+    spec fn as_option(self) -> Option<T>;
+    fn vx_map<U, F: FnOnce(T) -> U>(self, f: F) -> (r: Option<U>)
+        requires self.as_option() is Some ==> call_requires(f, (self.as_option()->Some_0,)),
+        ensures
+            self.as_option() is None ==> r is None,
+            self.as_option() is Some ==> r is Some && call_ensures(f, (self.as_option()->Some_0,), r->Some_0);
+}
+impl<T> VxOptionMap<T> for Option<T> {
+    open spec fn as_option(self) -> Option<T> { self }
+    #[verifier::external_body]
+    fn vx_map<U, F: FnOnce(T) -> U>(self, f: F) -> (r: Option<U>)
+    { self.map(f) }
+}
 
 // ---- enumerate ----
 #[verifier::external_type_specification]
@@ -109,11 +184,20 @@ pub broadcast axiom fn extend_postcondition<T, I: IntoIterator<Item = T>>(before
     requires #[trigger] extend_post(before, it, after),
     ensures
         call_ensures(I::into_iter, (it,), extend_src(before, it, after)),
-        extend_src(before, it, after).obeys_prophetic_iter_laws() ==> after == before + extend_src(before, it, after).remaining(),
+        extend_src(before, it, after).obeys_prophetic_iter_laws() ==> after == before + extend_src(before, it, after).remaining() && extend_src(before, it, after).will_return_none(),
 ;
 
+// the common case: the argument is itself an iterator (blanket IntoIterator = identity)
+pub broadcast axiom fn extend_postcondition_iter<T, I: Iterator<Item = T>>(before: Seq<T>, it: I, after: Seq<T>)
+    requires #[trigger] extend_post(before, it, after), it.obeys_prophetic_iter_laws(),
+    ensures after == before + it.remaining(), it.will_return_none();
+// ... or a Vec
+pub broadcast axiom fn extend_postcondition_vec<T>(before: Seq<T>, it: Vec<T>, after: Seq<T>)
+    requires #[trigger] extend_post(before, it, after),
+    ensures after == before + it@;
+
 pub broadcast group vx_axioms {
-    chain_postcondition, cloned_postcondition, enumerate_postcondition, extend_postcondition,
+    chain_postcondition, enumerate_postcondition, extend_postcondition, extend_postcondition_iter, extend_postcondition_vec,
 }
 
 // ---- repeat (only ever used through the R9 hole `vx_repeat_take`) ----
